@@ -1,4 +1,5 @@
 # C13 - Generator: consumer sees exactly the yielded sequence, in every access style
+import os
 CHT = 'std::__n4861::coroutine_handle<void>'
 DQT = 'std::deque<%s, std::allocator<%s > >' % (CHT, CHT)
 WAIT = r'^std::atomic<bool>::wait\(bool, std::memory_order\) const$'
@@ -58,54 +59,75 @@ UNITS = [
 
 # ---------------------------------------------------------------------------------------------------------------- contract units
 def esc(x): return x.replace('(', r'\(').replace(')', r'\)').replace('*', r'\*').replace('+', r'\+')
-def variant(arg):
-    G = 'cocls::generator<int, %s>' % arg
+def ap_of(val):
+    """std::atomic<T*> members of the future<val>/promise<val> pair, read sequentially (lib/model_atomic_ptr_api.c)"""
+    if val == 'int': return AP
+    return {k: v.replace('future<int>', 'future<%s>' % val) for k, v in AP.items()}
+def variant(arg, val='int'):
+    """aliases / types of generator<val, arg>; val = 'int' or 'c13_mv' (drivers/c13_types.cpp), arg = 'void', 'int' or 'c13_mv'"""
+    G = 'cocls::generator<%s, %s>' % (val, arg)
     PTX = '^' + esc(G) + '::promise_type::'
     NAX = '^' + esc(G) + '::next_awt::'
     ITX = '^' + esc('cocls::generator_iterator<%s >::' % G)
+    A = 'int' if arg == 'void' else arg
     N = {
-        'pt_yield_value_ref': PTX + r'yield_value\(int&\)$', 'pt_yield_value_rref': PTX + r'yield_value\(int&&\)$', 'pt_yield_value_null': PTX + r'yield_value\(decltype\(nullptr\)\)$',
+        'pt_yield_value_ref': PTX + r'yield_value\(%s&\)$' % val, 'pt_yield_value_rref': PTX + r'yield_value\(%s&&\)$' % val, 'pt_yield_value_null': PTX + r'yield_value\(decltype\(nullptr\)\)$',
         'ys_await_suspend': r'^std::__n4861::coroutine_handle<void> ' + esc(G) + r'::promise_type::yield_suspend::await_suspend<', 'ys_await_resume': PTX + r'yield_suspend::await_resume\(\)$',
         'yn_await_resume': PTX + r'yield_null::await_resume\(\)$', 'pt_final_suspend': PTX + r'final_suspend\(\)$', 'pt_return_void': PTX + r'return_void\(\)$',
-        'pt_unhandled_exception': PTX + r'unhandled_exception\(\)$', 'pt_set_arg': PTX + r'set_arg\(int&\)$', 'pt_next_async': PTX + r'next_async\(cocls::awaiter\*\)$', 'pt_next_sync': PTX + r'next_sync\(\)$',
-        'nf_lambda': r'^auto ' + esc(G) + r'::promise_type::next_future\(\)::\{lambda\(auto:1&&\)#1\}::operator\(\)<cocls::promise<int> >', 'pt_next_future': PTX + r'next_future\(\)$',
+        'pt_unhandled_exception': PTX + r'unhandled_exception\(\)$', 'pt_set_arg': PTX + r'set_arg\(%s&\)$' % A, 'pt_next_async': PTX + r'next_async\(cocls::awaiter\*\)$', 'pt_next_sync': PTX + r'next_sync\(\)$',
+        'nf_lambda': r'^auto ' + esc(G) + r'::promise_type::next_future\(\)::\{lambda\(auto:1&&\)#1\}::operator\(\)<cocls::promise<%s> >' % val, 'pt_next_future': PTX + r'next_future\(\)$',
         'pt_unblock_sync': PTX + r'unblock_sync\(\)$', 'pt_unblock_future': PTX + r'unblock_future\(\)$', 'pt_resume_fn_sync': PTX + r'resume_fn_sync\(', 'pt_resume_fn_future': PTX + r'resume_fn_future\(',
         'pt_done': PTX + r'done\(\) const$', 'pt_value': PTX + r'value\(\)$', 'pt_exception': PTX + r'exception\(\) const$',
         'na_bool': NAX + r'operator bool\(\) const$', 'na_not': NAX + r'operator!\(\) const$', 'na_await_ready': NAX + r'await_ready\(\) const$',
         'na_await_suspend': NAX + r'await_suspend\(std::__n4861::coroutine_handle<void>\)$', 'na_await_resume': NAX + r'await_resume\(\) const$', 'na_subscribe': NAX + r'subscribe\(cocls::awaiter\*\)$',
-        'gen_next': '^' + esc(G) + '::next_awt ' + esc(G) + '::next<', 'gen_value': '^' + esc(G) + r'::value\(\)$', 'gen_call': r'^cocls::future<int> ' + esc(G) + r'::operator\(\)<(>|int&>)',
+        'gen_next': '^' + esc(G) + '::next_awt ' + esc(G) + '::next<', 'gen_value': '^' + esc(G) + r'::value\(\)$', 'gen_call': r'^cocls::future<%s> ' % val + esc(G) + r'::operator\(\)<(>|%s&>)' % A,
         'gen_done': '^' + esc(G) + r'::done\(\) const$', 'gen_bool': '^' + esc(G) + r'::operator bool\(\) const$', 'gen_begin': '^drv_gen_begin$', 'gen_end': '^drv_gen_end$',
-        'gen_deleter': '^' + esc(G) + r'::deleter::operator\(\)\(',
+        'gen_deleter': '^' + esc(G) + r'::deleter::operator\(\)\(', 'gen_get_id': '^' + esc(G) + r'::get_id\(\)$',
         'it_ctor_fin': ITX + r'generator_iterator\(' + esc(G) + r'&, bool\)$', 'it_ctor': ITX + r'generator_iterator\(' + esc(G) + r'&\)$', 'it_eq': ITX + r'operator==\(', 'it_ne': ITX + r'operator!=\(',
         'it_inc': ITX + r'operator\+\+\(\)$', 'it_postinc': ITX + r'operator\+\+\(int\)$', 'it_deref': ITX + r'operator\*\(\) const$', 'it_arrow': ITX + r'operator->\(\) const$',
         # abstract callees (recording stubs in C13/g_spec.h)
         'chpt_resume': r'^std::__n4861::coroutine_handle<' + esc(G) + r'::promise_type>::resume\(\) const$', 'chpt_destroy': r'^std::__n4861::coroutine_handle<' + esc(G) + r'::promise_type>::destroy\(\) const$',
+        'chpt_address': r'^std::__n4861::coroutine_handle<' + esc(G) + r'::promise_type>::address\(\) const$',
         'chv_resume': r'^std::__n4861::coroutine_handle<void>::resume\(\) const$', 'ab_wait': WAIT, 'ab_notify': NOTIFY, 'aw_resume': r'^cocls::awaiter::resume\(\)$',
         'sp_suspend_now': r'^cocls::suspend_point<void>::suspend_now\(\)$',
-        'pr_call_drop': r'^cocls::suspend_point<bool> cocls::promise<int>::operator\(\)<cocls::DropTag>', 'pr_call_exc': r'^cocls::suspend_point<bool> cocls::promise<int>::operator\(\)<std::__exception_ptr::exception_ptr&>',
-        'pr_call_val': r'^cocls::suspend_point<bool> cocls::promise<int>::operator\(\)<int&>', 'pr_dtor_stub': r'^cocls::promise<int>::~promise\(\)$',
+        'pr_call_drop': r'^cocls::suspend_point<bool> cocls::promise<%s>::operator\(\)<cocls::DropTag>' % val, 'pr_call_exc': r'^cocls::suspend_point<bool> cocls::promise<%s>::operator\(\)<std::__exception_ptr::exception_ptr&>' % val,
+        'pr_call_val': r'^cocls::suspend_point<bool> cocls::promise<%s>::operator\(\)<%s&>' % (val, val), 'pr_dtor_stub': r'^cocls::promise<%s>::~promise\(\)$' % val,
+        # the promise called with an RVALUE of the value type: not called by the unchanged library (names_opt); its stub constructs the future's value by MOVE
+        'pr_call_rval': r'^cocls::suspend_point<bool> cocls::promise<%s>::operator\(\)<%s>\(' % (val, val),
+        'fut_set_val': r'^void cocls::future<%s>::set<%s&>\(' % (val, val),
+        # the constructors of the value type as plain functions (drivers/c13_types.cpp)
+        'mv_copy': '^drv_mv_copy$', 'mv_move': '^drv_mv_move$',
     }
     for a in ('pt_unblock_future', 'pt_next_sync', 'pt_next_async', 'pt_next_future', 'na_bool', 'gen_value', 'nf_lambda'): N[a + '_stub'] = N[a]
     N['RESUME_FN_SYNC'] = N['pt_resume_fn_sync']; N['RESUME_FN_FUTURE'] = N['pt_resume_fn_future']
     T = {'PT': G + '::promise_type', 'GEN': G, 'DEL': G + '::deleter',
          'CHPT': 'std::__n4861::coroutine_handle<%s::promise_type>' % G, 'CH': CHT, 'AWT': 'cocls::awaiter', 'SP': 'cocls::suspend_point<void>', 'SPB': 'cocls::suspend_point<bool>',
-         'PROM': 'cocls::promise<int>', 'FUT': 'cocls::future<int>', 'EXCP': 'std::__exception_ptr::exception_ptr', 'ATOMB': 'std::atomic<bool>',
-         'ATOM_AW': 'std::atomic<cocls::awaiter *>', 'ATOM_FU': 'std::atomic<cocls::future<int> *>'}
+         'PROM': 'cocls::promise<%s>' % val, 'FUT': 'cocls::future<%s>' % val, 'EXCP': 'std::__exception_ptr::exception_ptr', 'ATOMB': 'std::atomic<bool>',
+         'ATOM_AW': 'std::atomic<cocls::awaiter *>', 'ATOM_FU': 'std::atomic<cocls::future<%s> *>' % val}
     if arg == 'void': T['ITER'] = 'cocls::generator_iterator<%s >' % G
+    if val != 'int': T['VAL'] = val
+    if arg not in ('void', 'int'): T['ARGT'] = arg
     return G, N, T
 C_GLOBALS = {'NOOP_FRAME': '_ZNSt7__n486116coroutine_handleINS_22noop_coroutine_promiseEE5_S_frE', 'TI_NO_MORE_VALUES': '_ZTIN5cocls24no_more_values_exceptionE',
              'TI_VALUE_NOT_READY': '_ZTIN5cocls25value_not_ready_exceptionE'}
 C_LIBS = ['rt_core.c', 'rt_atomic_seq.c', 'model_atomic_ptr_api.c']
-VAR = {'void': variant('void'), 'int': variant('int')}
-def cu(name, alias, arg='void', uses=(), fnptr=(), lam=False, **kw):
-    """one function under contract; `uses` = abstract callees (boundary + recording stub), `fnptr` = functions whose address is compared"""
-    G, N, T = VAR[arg]
+MV = 'c13_mv'
+VAR = {('int', 'void'): variant('void'), ('int', 'int'): variant('int'), (MV, 'void'): variant('void', MV), ('int', MV): variant(MV)}
+DRV_T = 'c13_types.cpp'
+def cu(name, alias, arg='void', uses=(), fnptr=(), lam=False, val='int', extra=(), **kw):
+    """one function under contract; `uses` = abstract callees (boundary + recording stub), `fnptr` = functions whose address is compared,
+    `extra` = further translated functions the stubs call (roots + aliases); val/arg select the instantiation generator<val, arg>"""
+    G, N, T = VAR[(val, arg)]
+    APV = ap_of(val)
     names = {alias: N[alias]}
     for f in fnptr: names[f] = N[f]
-    names_opt = dict(AP); names_opt.update({a: N[a] for a in uses})
-    boundary = list(AP.values()) + [N[a] for a in uses] + [N[f] for f in fnptr]
-    d = dict(name=name + ('_arg' if arg == 'int' else ''), driver=DRV, roots=[N[alias]], names=names, names_opt=names_opt, types=T, globals=C_GLOBALS, boundary=boundary, lib=C_LIBS,
-             spec=['C13/drive_atomics.h', 'C13/g_spec.h', 'C13/h_g.c'], harness='h_' + name, enforce=alias, defines=(['GEN_ARG 1'] if arg == 'int' else []),
+    for f in extra: names[f] = N[f]
+    names_opt = dict(APV); names_opt.update({a: N[a] for a in uses})
+    boundary = list(APV.values()) + [N[a] for a in uses] + [N[f] for f in fnptr]
+    sfx = ('_mv' if val == MV else '') + ('_arg' if arg == 'int' else '_argmv' if arg == MV else '')
+    defs = (['GEN_ARG 1'] if arg != 'void' else []) + (['CV_VAL_MV 1'] if val == MV else []) + (['CV_ARG_MV 1'] if arg == MV else [])
+    d = dict(name=name + sfx, driver=(DRV if (val, arg) in (('int', 'void'), ('int', 'int')) else DRV_T), roots=[N[alias]] + [N[f] for f in extra], names=names, names_opt=names_opt, types=T, globals=C_GLOBALS, boundary=boundary, lib=C_LIBS,
+             spec=['C13/drive_atomics.h', 'C13/g_spec.h', 'C13/h_g.c'], harness='h_' + name, enforce=alias, defines=defs,
              under_contract=[N[alias].lstrip('^').rstrip('$').replace('\\', '')], timeout=300)
     # class types the debug-info resolver does not find (nested classes of the template): taken from parameter 0 of a member in the unit
     pt = {}
@@ -116,6 +138,7 @@ def cu(name, alias, arg='void', uses=(), fnptr=(), lam=False, **kw):
     elif alias == 'gen_next': pt['NAWT'] = N['gen_next'] + '#0'
     if alias.startswith('ys_'): pt['YS'] = N[alias] + '#0'
     if alias.startswith('yn_'): pt['YN'] = N[alias] + '#0'
+    if alias == 'it_postinc' and val != 'int': pt['ISTORE'] = N[alias] + '#0'
     if pt: d['ptypes'] = pt
     d.update(kw)
     return d
@@ -133,7 +156,7 @@ CONTRACT_UNITS = [
     cu('nf_lambda', 'nf_lambda', uses=('chpt_resume',), fnptr=('RESUME_FN_FUTURE',), lam=True, object_bits=10), cu('nf_lambda', 'nf_lambda', 'int', uses=('chpt_resume',), fnptr=('RESUME_FN_FUTURE',), lam=True, object_bits=10),
     cu('next_future', 'pt_next_future', uses=('nf_lambda_stub', 'pr_dtor_stub'), lam=True),
     cu('unblock_sync', 'pt_unblock_sync', uses=('ab_notify',)),
-    cu('unblock_future', 'pt_unblock_future', uses=('pr_call_drop', 'pr_call_exc', 'pr_call_val', 'sp_suspend_now'), replay=AE_REPLAY),
+    cu('unblock_future', 'pt_unblock_future', uses=('pr_call_drop', 'pr_call_exc', 'pr_call_val', 'pr_call_rval', 'sp_suspend_now'), replay=AE_REPLAY),
     cu('resume_fn_sync', 'pt_resume_fn_sync', uses=('ab_notify',)), cu('resume_fn_future', 'pt_resume_fn_future', uses=('pt_unblock_future_stub',)),
     cu('pt_done', 'pt_done'), cu('pt_value', 'pt_value'), cu('pt_exception', 'pt_exception'),
     cu('na_bool', 'na_bool', uses=('pt_next_sync_stub',)), cu('na_not', 'na_not', uses=('pt_next_sync_stub',)), cu('na_bool', 'na_bool', 'int', uses=('pt_next_sync_stub',)),
@@ -147,17 +170,57 @@ CONTRACT_UNITS = [
     cu('it_inc', 'it_inc', uses=('na_bool_stub',)), cu('it_deref', 'it_deref', uses=('gen_value_stub',)), cu('it_arrow', 'it_arrow', uses=('gen_value_stub',)),
     cu('it_postinc', 'it_postinc', uses=('gen_value_stub', 'na_bool_stub')),
 ]
-UNITS = CONTRACT_UNITS + UNITS
+# ---- value types (task B3): generator<c13_mv> - a value type whose move differs from its copy - and generator<int, c13_mv> (drivers/c13_types.cpp).
+# The members that TRANSPORT the value / the argument, under the same contracts + the value clause (g_spec.h: VAL_IS): the object the consumer
+# reads is the yielded one, holds the yielded payload and has not been moved from; reading does not consume.
+PC_USES = ('pr_call_drop', 'pr_call_exc', 'pr_call_val', 'pr_call_rval', 'sp_suspend_now')
+VALUE_UNITS = [
+    cu('yield_value_ref', 'pt_yield_value_ref', val=MV), cu('yield_value_rref', 'pt_yield_value_rref', val=MV),
+    cu('unblock_future', 'pt_unblock_future', val=MV, uses=PC_USES, extra=('mv_copy', 'mv_move')),
+    cu('pt_value', 'pt_value', val=MV), cu('gen_value', 'gen_value', val=MV), cu('na_await_resume', 'na_await_resume', val=MV),
+    cu('it_deref', 'it_deref', val=MV, uses=('gen_value_stub',)), cu('it_arrow', 'it_arrow', val=MV, uses=('gen_value_stub',)),
+    cu('it_postinc', 'it_postinc', val=MV, uses=('gen_value_stub', 'na_bool_stub'), **({'defines': ['CV_VAL_MV 1', 'C13_POSTINC_STRICT 1']} if os.environ.get('C13_POSTINC_STRICT') else {})),
+    cu('gen_call', 'gen_call', val=MV, uses=('pt_next_future_stub',)),
+    cu('nf_lambda', 'nf_lambda', val=MV, uses=('chpt_resume',), fnptr=('RESUME_FN_FUTURE',), lam=True, object_bits=10),
+    cu('next_future', 'pt_next_future', val=MV, uses=('nf_lambda_stub', 'pr_dtor_stub'), lam=True),
+    cu('fut_set_val', 'fut_set_val', val=MV),
+    # argument routing with an argument type that is not int
+    cu('set_arg', 'pt_set_arg', MV), cu('ys_await_resume', 'ys_await_resume', MV), cu('yn_await_resume', 'yn_await_resume', MV),
+    cu('gen_next', 'gen_next', MV), cu('gen_call', 'gen_call', MV, uses=('pt_next_future_stub',)),
+    # coverage: generator::get_id()
+    cu('gen_get_id', 'gen_get_id'),
+]
+# bounded drives with the value type c13_mv / the argument type c13_mv (really lowered coroutines of drivers/c13_types.cpp)
+T_GLOBALS = {'FRAME_KIND': 'g_frame_kind', 'G_OBS': 'g_obs', 'G_MOVED': 'g_moved', 'G_NOBS': 'g_nobs', 'G_AGAIN': 'g_again', 'G_AGAIN_MOVED': 'g_again_moved', 'G_END': 'g_end',
+             'G_OTHER_EXC': 'g_other_exc', 'G_BODY_MOVED': 'g_body_moved', 'G_ARGS': 'g_args', 'G_ARGS_MOVED': 'g_args_moved', 'G_NARGS': 'g_nargs'}
+def drive_t(name, root, what, val, frames, defines, unwind=8, timeout=400, **kw):
+    APV = ap_of(val)
+    tp = dict(D_TYPES, **{'ATOM_AW': 'std::atomic<cocls::awaiter *>', 'ATOM_FU': 'std::atomic<cocls::future<%s> *>' % val, 'AWT': 'cocls::awaiter', 'FUT': 'cocls::future<%s>' % val})
+    d = dict(name='drive_' + name, driver=DRV_T, roots=['^%s$' % root], names={}, names_opt=dict(APV, ab_wait=WAIT, ab_notify=NOTIFY), types=tp, globals=T_GLOBALS,
+             boundary=[r'^std::deque<std::__n4861::coroutine_handle<void>', WAIT, NOTIFY] + list(APV.values()), lib=D_LIBS, spec=['C13/drive_atomics.h', 'C13/h_drive_types.c'], harness='h_drive',
+             defines=['CV_NO_HEAP_PRIMS 1', 'CV_FRAME_KINDS ' + frames] + defines, unwind=unwind, object_bits=12, kind='bounded', timeout=timeout, bounded=what, under_contract=[])
+    d.update(kw)
+    return d
+MV_FRAMES = 'X(1, S_gen_mv_Frame) X(3, S_co_step_mv_Frame)'
+TYPE_DRIVES = [
+    drive_t('mv_sync', 'drive_mv', 'generator<c13_mv> (move differs from copy), k <= 3 symbolic payloads (an lvalue kept by the body, a temporary, the lvalue again); every sequence of 4 steps over next()/value(), call-to-future, fresh iterator operator*; every item read twice',
+            MV, MV_FRAMES, ['DRIVE_mv 1', 'MV_STYLE_LO 0', 'MV_STYLE_HI 2']),
+    drive_t('mv_co', 'drive_mv', 'generator<c13_mv>, k <= 3 symbolic payloads; every sequence of 4 steps over co_await next(), co_await of the call future (one small consumer coroutine per step), fresh iterator operator->; every item read twice',
+            MV, MV_FRAMES, ['DRIVE_mv 1', 'MV_STYLE_LO 3', 'MV_STYLE_HI 5']),
+    drive_t('argmv', 'drive_argmv', 'generator<int, c13_mv>, k <= 2 values, symbolic argument payloads; next(arg)/value() and call-to-future with lvalue arguments', 'int', 'X(2, S_gen_argmv_Frame)', ['DRIVE_argmv 1']),
+]
+UNITS = CONTRACT_UNITS + VALUE_UNITS + UNITS + TYPE_DRIVES
 
 META = dict(
     level='proof',
-    level_text='PROVED (contracts, unbounded): every record-keeping function of generator<int> and generator<int,int> - promise_type::yield_value (3 overloads), yield_suspend::await_suspend / await_resume, yield_null::await_resume, final_suspend, return_void, unhandled_exception, set_arg, next_async, next_sync, the functor of next_future, next_future, unblock_sync, unblock_future, resume_fn_sync, resume_fn_future, done, value, exception; next_awt::operator bool / operator! / await_ready / await_suspend / await_resume / subscribe; generator::next / value / operator() / done / operator bool / begin / end / deleter; every generator_iterator member - satisfies a contract taken from the property over the hand-over record {_caller, _internal, _arg, _ret, _exp, _done, _block, _awaiting}: the request is cleared before exactly the asker is resumed exactly once and whatever the asker made ready is continued or scheduled, none lost (yield_suspend::await_suspend); value() returns the object of the last co_yield or rethrows the very exception stored; unblock_future resolves the pending call exactly once with drop / that exception / that value (exception before value); handing the stored exception to the consumer (the rethrow in value(), the resolution of the call future) marks the record finished - for the call future before the consumer can look - while unhandled_exception itself must not (the exception would be dropped instead of surfacing), and a value or an end leaves the end marker alone (after-exception clause, see level_note); the argument pointer the body reads is the one installed by the resuming call; next_sync completes the record before the body runs, resumes it once, waits with acquire order and returns only after the body handed back; operator bool steps at most once per next() and never on a finished generator; it++ hands out the value read before the step; nothing allocates (C20). BOUNDED (drives of the really lowered coroutines, never counted as proof): for scripted bodies with k <= 3 symbolic values, optional throw at any position, optional argument, optional co_await of a ready or a pending future, and the consumer styles next()/value(), range-for, explicit iterators, call-to-future, co_await next() and co_await of the call future from a consumer coroutine, every sequence of 4 steps mixed from the three synchronous styles and from all five styles (each co_await step a small consumer coroutine of its own), a throwing body met by a different style at every step (co_await styles included): observed sequence == yielded sequence, exactly one end indication, exception exactly once and exactly at its position, after the exception done() true / operator bool false and asking again (twice) gives the end indication of the style, argument echo, locals destroyed exactly once when the generator is dropped before the first activation / parked at a yield / finished, allocations == frames and all freed.',
-    level_note='The quantifier "for every body script and every sequence of access styles" is covered by the contracts only function by function (each contract is the inductive step of the record invariant; no machine-checked history lemma composes them) and by the drives only up to the stated bounds. Trusted: abstract callees (coroutine resumption/destruction, resumption of the asking awaiter, promise resolution, suspend_now, atomic<bool>::wait/notify_all, neighbouring members in forwarder units) as recording stubs with arbitrary admissible results; std::atomic<T*> members read sequentially at member-function level (the record is owned by one thread at a time; release/acquire of the hand-over itself is C03); in drives additionally the FIFO ring for the ready queue, typed frame allocation, compare_exchange_weak without spurious failure. Not covered: bodies completed by ANOTHER thread while the consumer blocks in next_sync (only through the wait primitive of the next_sync contract: a blocking wait ends when the flag is raised), memory orders of _block beyond "wait uses acquire", value types other than int, generator_iterator::storage::operator* / operator-> (do not compile when instantiated: const member returning a non-const reference, so `*it++` is unusable). AFTER-EXCEPTION CLAUSE (restated from the statement after the audit of group E, item W1; the former drive accepted whatever the code did): the statement promises "exactly the sequence of values ... followed by a single end-of-sequence indication, whichever access style it uses or mixes" and "an exception escaping the body surfaces to the consumer at exactly that position". For a body that throws after k values the observation is therefore: the k values, the exception (once, at position k), and with it the sequence is over - the body can produce nothing more. Reading adopted: from the moment the exception has surfaced the generator must behave as one whose end has been reached - done() true, operator bool false, and asking again gives the end-of-sequence indication of the style used (next() / co_await next() false, a fresh iterator == end()), every time, without an exception and without a value; for the call styles the library\'s answer to calling a finished generator (a future without value or no_more_values_exception) is accepted, as in drive `future`. Reading rejected: "the exception is itself the end indication, any later access may throw no_more_values_exception" - the statement asks for the end indication in whichever style, the styles next() / iterator / co_await next() have an in-band one that the library documents (next_awt: "false - next item is not available"; generator::done(): "returns true, if the generator is finished"), and a consumer that handles the failed item and goes on reading (`for(;;) try { if (!g.next()) break; use(g.value()); } catch (...) {}`) terminates only if it gets it: on the unchanged library it receives no_more_values_exception for ever while done() stays false and operator bool true for a generator that is finished. On the unchanged tree this clause FAILS (genuine defect, native replay replay/c13_after_exception.cpp, all 5 styles x 4 throw positions): units gen_value (postcondition: rethrow ==> finished), unblock_future (postcondition: exception handed to the call future ==> finished, already at the resolution), drive_after_exception_sync and drive_after_exception_co (two assertions each, prefix C13-FINDING-after-exception). Repair: specs/C13/fix_after_exception.diff (generator.h: the end marker is set when the stored exception is handed over - in generator::value() before the rethrow and in unblock_future before the promise is resolved; unhandled_exception is left alone: marking the end there makes every style drop the exception, which the drives and the assigns clause of unit unhandled_exception reject). With the repair all 68 units pass and the 15 library tests pass. The earlier finding on next_async (request left behind when refused) is repaired in /repo (9bcf8c0).',
+    level_text='PROVED (contracts, unbounded): every record-keeping function of generator<int> and generator<int,int> - promise_type::yield_value (3 overloads), yield_suspend::await_suspend / await_resume, yield_null::await_resume, final_suspend, return_void, unhandled_exception, set_arg, next_async, next_sync, the functor of next_future, next_future, unblock_sync, unblock_future, resume_fn_sync, resume_fn_future, done, value, exception; next_awt::operator bool / operator! / await_ready / await_suspend / await_resume / subscribe; generator::next / value / operator() / done / operator bool / begin / end / deleter; every generator_iterator member - satisfies a contract taken from the property over the hand-over record {_caller, _internal, _arg, _ret, _exp, _done, _block, _awaiting}: the request is cleared before exactly the asker is resumed exactly once and whatever the asker made ready is continued or scheduled, none lost (yield_suspend::await_suspend); value() returns the object of the last co_yield or rethrows the very exception stored; unblock_future resolves the pending call exactly once with drop / that exception / that value (exception before value); handing the stored exception to the consumer (the rethrow in value(), the resolution of the call future) marks the record finished - for the call future before the consumer can look - while unhandled_exception itself must not (the exception would be dropped instead of surfacing), and a value or an end leaves the end marker alone (after-exception clause, see level_note); the argument pointer the body reads is the one installed by the resuming call; next_sync completes the record before the body runs, resumes it once, waits with acquire order and returns only after the body handed back; operator bool steps at most once per next() and never on a finished generator; it++ hands out the value read before the step; nothing allocates (C20). VALUE TYPES (units *_mv / *_argmv, drivers/c13_types.cpp): the members that transport the value are proved again for generator<c13_mv> - c13_mv {payload, moved_from} is a value type whose MOVE empties and flags its source while its COPY leaves it intact (what std::string does) - under the same contracts plus the value clause taken from "exactly the sequence of values the generator body yields - same values ... whichever access style it uses or mixes": yield_value(T&) / yield_value(T&&) remember the body\'s OBJECT and do not touch it; promise_type::value() / generator::value() hand out that object, holding the yielded payload, not moved from, and reading does not consume (record and object unchanged, so a second read gives the same); unblock_future gives the call future a value constructed from that object (the abstract promise runs the REAL copy / move constructor of c13_mv, translated) holding the yielded payload AND leaves the generator\'s own item un-moved - handing it over by move is a violation (seeded change C13-2: VIOLATION in unblock_future_mv, 11 s; the int unit now PASSES on that change - for int a move is a copy - instead of timing out); future<c13_mv>::set(c13_mv&) (the step behind promise::operator()) copy-constructs the future\'s value and leaves the source intact; next_awt::await_resume touches nothing but its state flag; iterator operator* / operator-> hand out exactly what value() gives; it++ hands out storage holding the current value read BEFORE the step; operator() / next_future / its functor for future<c13_mv>. ARGUMENT TYPE that is not int (generator<int, c13_mv>): set_arg, yield_suspend::await_resume, yield_null::await_resume, next(arg), operator()(arg) - the body reads exactly the object installed by the resuming call. generator::get_id() = address of the frame the promise lives in. BOUNDED (drives of the really lowered coroutines, never counted as proof): generator<c13_mv> with k <= 3 symbolic payloads (an lvalue the body keeps, a temporary, the lvalue again), every sequence of 4 steps over {next()/value(), call-to-future, iterator operator*} and over {co_await next(), co_await of the call future, iterator operator->}, every item read TWICE: payloads in order, no observed object moved from, the second read equal, the body finds its lvalue intact; generator<int, c13_mv> with k <= 2: argument payloads echoed, argument objects neither moved from nor consumed. Further (int): for scripted bodies with k <= 3 symbolic values, optional throw at any position, optional argument, optional co_await of a ready or a pending future, and the consumer styles next()/value(), range-for, explicit iterators, call-to-future, co_await next() and co_await of the call future from a consumer coroutine, every sequence of 4 steps mixed from the three synchronous styles and from all five styles (each co_await step a small consumer coroutine of its own), a throwing body met by a different style at every step (co_await styles included): observed sequence == yielded sequence, exactly one end indication, exception exactly once and exactly at its position, after the exception done() true / operator bool false and asking again (twice) gives the end indication of the style, argument echo, locals destroyed exactly once when the generator is dropped before the first activation / parked at a yield / finished, allocations == frames and all freed.',
+    level_note='The quantifier "for every body script and every sequence of access styles" is covered by the contracts only function by function (each contract is the inductive step of the record invariant; no machine-checked history lemma composes them) and by the drives only up to the stated bounds. Trusted: abstract callees (coroutine resumption/destruction, resumption of the asking awaiter, promise resolution, suspend_now, atomic<bool>::wait/notify_all, neighbouring members in forwarder units) as recording stubs with arbitrary admissible results; std::atomic<T*> members read sequentially at member-function level (the record is owned by one thread at a time; release/acquire of the hand-over itself is C03); in drives additionally the FIFO ring for the ready queue, typed frame allocation, compare_exchange_weak without spurious failure. Not covered: bodies completed by ANOTHER thread while the consumer blocks in next_sync (only through the wait primitive of the next_sync contract: a blocking wait ends when the flag is raised), memory orders of _block beyond "wait uses acquire", value types other than int and c13_mv (the transport members are generic in T: they pass pointers / references, the only constructions of a T are in future::set and iterator::storage - both covered with c13_mv; types with throwing copy constructors are not covered), the six-style mix in ONE drive for c13_mv (two drives of three styles each), generator_iterator::storage::operator* / operator-> (do not compile when instantiated: const member returning a non-const reference, so `*it++` is unusable). AFTER-EXCEPTION CLAUSE (restated from the statement after the audit of group E, item W1; the former drive accepted whatever the code did): the statement promises "exactly the sequence of values ... followed by a single end-of-sequence indication, whichever access style it uses or mixes" and "an exception escaping the body surfaces to the consumer at exactly that position". For a body that throws after k values the observation is therefore: the k values, the exception (once, at position k), and with it the sequence is over - the body can produce nothing more. Reading adopted: from the moment the exception has surfaced the generator must behave as one whose end has been reached - done() true, operator bool false, and asking again gives the end-of-sequence indication of the style used (next() / co_await next() false, a fresh iterator == end()), every time, without an exception and without a value; for the call styles the library\'s answer to calling a finished generator (a future without value or no_more_values_exception) is accepted, as in drive `future`. Reading rejected: "the exception is itself the end indication, any later access may throw no_more_values_exception" - the statement asks for the end indication in whichever style, the styles next() / iterator / co_await next() have an in-band one that the library documents (next_awt: "false - next item is not available"; generator::done(): "returns true, if the generator is finished"), and a consumer that handles the failed item and goes on reading (`for(;;) try { if (!g.next()) break; use(g.value()); } catch (...) {}`) terminates only if it gets it: on the unchanged library it receives no_more_values_exception for ever while done() stays false and operator bool true for a generator that is finished. On the unchanged tree this clause FAILS (genuine defect, native replay replay/c13_after_exception.cpp, all 5 styles x 4 throw positions): units gen_value (postcondition: rethrow ==> finished), unblock_future (postcondition: exception handed to the call future ==> finished, already at the resolution), drive_after_exception_sync and drive_after_exception_co (two assertions each, prefix C13-FINDING-after-exception). Repair: specs/C13/fix_after_exception.diff (generator.h: the end marker is set when the stored exception is handed over - in generator::value() before the rethrow and in unblock_future before the promise is resolved; unhandled_exception is left alone: marking the end there makes every style drop the exception, which the drives and the assigns clause of unit unhandled_exception reject). With the repair all 68 units pass and the 15 library tests pass. The earlier finding on next_async (request left behind when refused) is repaired in /repo (9bcf8c0). OBSERVATION (value types, no violation claimed): generator_iterator::operator++(int) builds the handed-out storage by MOVING from the generator\'s item (`storage z{std::move(_gen->value())}`), i.e. from the body\'s own object when the body yielded an lvalue - a body that keeps using it (`s += c; co_yield s;`) finds it emptied after a postfix increment; confirmed natively (replay/c13_postinc_moves.cpp: the same body read by range-for gives a ab abc abcd, read by it++ gives a b c d) - the observed sequence depends on the access style, against "whichever access style it uses or mixes". Candidate defect, NOT registered in known_findings.json, therefore the clause is opt-in: C13_POSTINC_STRICT=1 ./check C13 quick --unit it_postinc_mv adds "the body\'s object is left intact" (marker C13-FINDING-postinc-moves) and FAILS on the unchanged tree, passes with specs/C13/fix_postinc_copy.diff (copy instead of move). Without the switch unit it_postinc_mv admits the move. Prefix ++ / range-for do not move.',
     technique='CBMC 6.11 code contracts (requires/ensures/assigns) enforced per function via goto-instrument --dfcc on the C translation of clang IR of generator.h / iterator.h, abstract callees as recording stubs; plus bounded symbolic execution (plain cbmc, unwinding assertions) of driver scenarios in which clang has lowered generator bodies and consumer coroutines to ramp/resume/destroy functions and ir2c devirtualises coroutine_handle::resume()',
     trusted_base=['abstract callees recorded in ghost state (specs/C13/g_spec.h): coroutine_handle<promise_type>::resume/destroy, coroutine_handle<>::resume, awaiter::resume, suspend_point<void>::suspend_now, promise<int>::operator() (3 instantiations), promise<int>::~promise, std::atomic<bool>::wait / notify_all',
                   'std::atomic<T*> load / exchange / compare_exchange_weak / operator= read sequentially at member-function level, no spurious CAS failure (lib/model_atomic_ptr_api.c)',
                   'drives: std::deque<coroutine_handle<>> = bounded FIFO ring (lib/model_dq_drive.c); operator new/delete with coroutine frames allocated as typed objects (lib/model_heap_frames.c); atomic<bool>::wait = obligation "already satisfied" in a single-threaded drive (specs/C13/h_drive.c)',
-                  'exception model of lib/rt_core.c (exception_ptr = pointer to the thrown object, reference counts counted, not freed)'],
+                  'exception model of lib/rt_core.c (exception_ptr = pointer to the thrown object, reference counts counted, not freed)',
+                  'units *_mv: promise<c13_mv>::operator()(T& / T&&) = recording stub that constructs the future\'s value from its argument with the real translated copy / move constructor of c13_mv (what future::set does - unit fut_set_val_mv proves the copy case on the real code); c13_mv itself (drivers/c13_types.cpp) stands for "a type whose move differs from its copy"'],
     assumptions=['contract units: the promise lives in a coroutine frame laid out as the ABI prescribes (resume slot, destroy slot, promise at offset 16; NULL resume slot = final suspend point)',
                  'hand-over invariant assumed by unblock_future: the record describes an end, an exception or a value (established by yield_value / final_suspend + return_void / unhandled_exception, each proved)',
                  'next_sync / next_future / next_async preconditions: the generator is idle (_caller == NULL, no promise parked) - the documented "Generator is busy" contract of the library',
